@@ -1048,7 +1048,7 @@ func (x *Exec) doBuiltin(st *State, ins ssa.Instruction, b *ssa.Builtin, c *ssa.
 		case isString(a.T):
 			return scalar(rt, app("slen", sInt, a.one()))
 		case isMap(a.T):
-			n := app("maplen", sInt, a.one())
+			n := x.mapLen(st, a.T.Underlying().(*types.Map), a.one())
 			st.assume(mkCmp(">=", n, tZero))
 			st.assume(mkImplies(mkEq(a.one(), tZero), mkEq(n, tZero)))
 			return scalar(rt, n)
@@ -1084,7 +1084,10 @@ func (x *Exec) doBuiltin(st *State, ins ssa.Instruction, b *ssa.Builtin, c *ssa.
 		m := args[0]
 		mt := m.T.Underlying().(*types.Map)
 		d := x.mapDom(st, mt)
+		wasIn := mkSelect(mkSelect(d, m.one()), args[1].one())
+		lenBefore := x.mapLen(st, mt, m.one())
 		x.mapSet(st, "MapD:"+typeKey(mt), mkStore(d, m.one(), mkStore(mkSelect(d, m.one()), args[1].one(), tFalse)))
+		st.assume(mkEq(x.mapLen(st, mt, m.one()), mkIte(wasIn, mkArith("-", lenBefore, tOne), lenBefore)))
 		return Value{T: rt}
 	case "panic":
 		if x.nopanic && !x.ctr.AllowExplicitPanic {
